@@ -863,6 +863,11 @@ def value_ops(d, n=3):
             if d >= 3:
                 out.append((f"{lvl}.unflattenRanks", {"depth": 0, "levels": 2}, {"pre": {"depth": 0, "levels": 2, "style": "tuple"}}))
                 out.append((f"{lvl}.unflattenRanks", {"depth": 0, "levels": 1}, {"pre": {"depth": 0, "levels": 2, "style": "tuple"}}))
+                # an operand that is itself the result of a flatten (its first rank id is a list)
+                for style in ("tuple", "pair"):
+                    out.append((f"{lvl}.flattenRanks", {"depth": 0, "levels": 1, "style": style},
+                                {"pre": {"depth": 0, "levels": 1, "style": "tuple"}}))
+                out.append((f"{lvl}.swapRanks", {"depth": 0}, {"pre": {"depth": 0, "levels": 1, "style": "tuple"}}))
     for perm in itertools.permutations(range(d)):
         out.append(("T.swizzleRanks", {"perm": list(perm)}, {}))
     for k in range(d):
